@@ -637,30 +637,27 @@ _dispatch_transform_from_base32_with_table(dispatch_data_t data,
 				*ptr++ = (x >> 16) & 0xff;
 				*ptr++ = (x >> 8) & 0xff;
 				*ptr++ = x & 0xff;
+				// the padding seen in this group (possibly in an earlier
+				// region) tells how many of its five bytes are real
+				switch (pad) {
+				case 1:
+					ptr -= 1;
+					break;
+				case 3:
+					ptr -= 2;
+					break;
+				case 4:
+					ptr -= 3;
+					break;
+				case 6:
+					ptr -= 4;
+					break;
+				}
+				pad = 0;
 			}
 		}
 
-		size_t final = (size_t)(ptr - dest), trim = 0;
-		switch (pad) {
-		case 1:
-			trim = 1;
-			break;
-		case 3:
-			trim = 2;
-			break;
-		case 4:
-			trim = 3;
-			break;
-		case 6:
-			trim = 4;
-			break;
-		}
-		if (trim > final) {
-			// padding without the data it pads: malformed input
-			free(dest);
-			return (bool)false;
-		}
-		final -= trim;
+		size_t final = (size_t)(ptr - dest);
 
 		dispatch_data_t val = dispatch_data_create(dest, final, NULL,
 				DISPATCH_DATA_DESTRUCTOR_FREE);
@@ -889,19 +886,20 @@ _dispatch_transform_from_base64(dispatch_data_t data)
 				*ptr++ = (x >> 16) & 0xff;
 				*ptr++ = (x >> 8) & 0xff;
 				*ptr++ = x & 0xff;
+				// the padding seen in this group (possibly in an earlier
+				// region) tells how many of its three bytes are real:
+				// 2 bytes of pad means only had one char in the group
+				if (pad > 3) {
+					// more padding than data: malformed input
+					free(dest);
+					return (bool)false;
+				}
+				ptr -= pad;
+				pad = 0;
 			}
 		}
 
 		size_t final = (size_t)(ptr - dest);
-		if (pad > 0) {
-			if (pad > final) {
-				// padding without the data it pads: malformed input
-				free(dest);
-				return (bool)false;
-			}
-			// 2 bytes of pad means only had one char in final group
-			final -= pad;
-		}
 
 		dispatch_data_t val = dispatch_data_create(dest, final, NULL,
 				DISPATCH_DATA_DESTRUCTOR_FREE);
